@@ -8,7 +8,7 @@ import numpy as np
 
 from . import groups as G
 from . import ref_graded as RG
-from .arrays import arrd, build, conj_ixd, duals_of, embed, exact_equal, frame_of, gt_of, ixd, oddpos_key, sparsity_patterns, tables_of
+from .arrays import arrd, build, index_key, conj_ixd, duals_of, embed, exact_equal, frame_of, gt_of, ixd, oddpos_key, sparsity_patterns, tables_of
 
 # topology: list of tensors, each a tuple of leg names; a name on two tensors is a bond, on one a dangling leg
 TOPOLOGIES = {
@@ -77,6 +77,9 @@ class Node:
         self.tree = tree
 
 
+MATMUL_MISMATCH = []
+
+
 def shared(n1, n2):
     return [nm for nm in n1.legs if nm in n2.legs]
 
@@ -89,6 +92,26 @@ def contract_nodes(sr, n1, n2, names, mode, cache=None):
     ax1 = tuple(n1.legs.index(nm) for nm in names)
     ax2 = tuple(n2.legs.index(nm) for nm in names)
     c = sr.tensordot(n1.arr, n2.arr, (ax1, ax2), mode=mode, preserve_array=True)
+    if mode == "blockwise" and len(names) == 1 and n1.arr.ndim <= 2 and n2.arr.ndim <= 2 and ax1 == (n1.arr.ndim - 1,) and ax2 == (0,):
+        # the same step through the matrix-product entry point (vector.vector, matrix.vector, matrix.matrix)
+        try:
+            m = n1.arr @ n2.arr
+            if c.ndim == 0:
+                mv, cv = complex(m), complex(embed(c))
+                ok = abs(mv - cv) <= 1e-12 * (1 + abs(cv))
+            else:
+                ok = (
+                    getattr(m, "ndim", -1) == c.ndim
+                    and m.charge == c.charge
+                    and tuple(index_key(i) for i in m.indices) == tuple(index_key(i) for i in c.indices)
+                    and (not c.fermionic or oddpos_key(m) == oddpos_key(c))
+                    and exact_equal(embed(m), embed(c))
+                )
+            if not ok and len(MATMUL_MISMATCH) < 20:
+                MATMUL_MISMATCH.append(f"{n1.legs} @ {n2.legs}: the matrix product differs from tensordot over {names}")
+        except Exception as e:  # noqa
+            if len(MATMUL_MISMATCH) < 20:
+                MATMUL_MISMATCH.append(f"{n1.legs} @ {n2.legs}: raised {type(e).__name__}: {e}")
     legs = [nm for nm in n1.legs if nm not in names] + [nm for nm in n2.legs if nm not in names]
     node = Node(c, legs, tree)
     if cache is not None:
@@ -202,10 +225,13 @@ def route_set_failures(sr, arrs, topo, out_legs, opts, with_reference=True):
     nodes = [Node(a, legs) for a, legs in zip(arrs, topo)]
     counter = {"contract": 0, "trace": 0}
     results = []
+    del MATMUL_MISMATCH[:]
     try:
         explore_routes(sr, nodes, list(out_legs), opts, counter, results)
     except Exception as e:
         return [(f"route-raised-{type(e).__name__}", str(e))], 0, counter["contract"]
+    for det in MATMUL_MISMATCH:
+        fails.append(("matmul-vs-tensordot", det))
     if not results:
         return [], 0, counter["contract"]
     occ = {}
